@@ -258,8 +258,9 @@ def first_diff(a, b):
 class Case:
     """One script: suite, lines, and free-form metadata used by oracles."""
 
-    def __init__(self, suite, lines, meta=None, compare=None):
+    def __init__(self, suite, lines, meta=None, compare=None, model_suite=None):
         self.suite = suite
+        self.model_suite = model_suite or suite
         self.lines = lines
         self.meta = meta or {}
         self.compare = compare  # optional predicate (op_token) -> bool: which lines to compare
@@ -267,7 +268,7 @@ class Case:
         self.impl = None
 
     def run(self):
-        self.model = run_model(self.suite, self.lines)
+        self.model = run_model(self.model_suite, self.lines)
         self.impl = run_impl(self.suite, annotate(self.lines, self.model))
         return self
 
@@ -304,7 +305,7 @@ def shrink(case, still_bad, budget=60):
         for i in range(0, len(body), chunk):
             cand = body[:i] + body[i + chunk:]
             tries += 1
-            c2 = Case(case.suite, head + cand, case.meta, case.compare).run()
+            c2 = Case(case.suite, head + cand, case.meta, case.compare, case.model_suite).run()
             if still_bad(c2):
                 body = cand
                 n = max(n - 1, 2)
@@ -316,7 +317,7 @@ def shrink(case, still_bad, budget=60):
             if chunk == 1:
                 break
             n = min(n * 2, len(body))
-    return Case(case.suite, head + body, case.meta, case.compare).run()
+    return Case(case.suite, head + body, case.meta, case.compare, case.model_suite).run()
 
 
 # ---------------------------------------------------------------- verdicts and evidence
@@ -379,6 +380,8 @@ class Report:
         oc = self.cov.setdefault("outcome_histogram", {})
         for out in (case.impl or []):
             o = out.split()
+            if len(o) >= 4 and o[0] == "done":
+                o = o[2:]
             if len(o) >= 2 and o[0] in ("create", "update", "delete", "batch", "compact", "watch", "list", "stream"):
                 tag = o[1] if (o[1].isalpha() and len(o[1]) < 12) else "data"
                 if o[0] == "stream":
